@@ -98,6 +98,16 @@ func (k Keeper) UpdateParams(
 		)
 		nextParams.EpochIdentifier = prevParams.EpochIdentifier
 	}
+	// the opt outs, consensus addresses and undelegations scheduled by this module are keyed by
+	// epoch numbers of the current epoch identifier. under another identifier they would be
+	// released late or never, so the identifier can only change while nothing is scheduled.
+	if nextParams.EpochIdentifier != prevParams.EpochIdentifier && k.HasScheduledOperations(c) {
+		logger.Info(
+			"UpdateParams",
+			"overriding EpochIdentifier with value", prevParams.EpochIdentifier,
+		)
+		nextParams.EpochIdentifier = prevParams.EpochIdentifier
+	}
 	override := false
 	for _, assetID := range nextParams.AssetIDs {
 		if !k.restakingKeeper.IsStakingAsset(c, strings.ToLower(assetID)) {
